@@ -71,16 +71,19 @@ import "time"
 //@   inline
 //@   requires tlv != nil
 
-func verifMessageRoundTrip(m *Message) (q Message, err error) {
+// The round-trip harnesses decode into a caller-supplied value with arbitrary previous contents (the clients reuse
+// their message and TLV variables across receive-loop iterations): nothing of the old contents may survive.
+func verifMessageRoundTrip(m *Message, q *Message) (err error) {
 	b := make([]byte, MinMessageLength)
 	EncodeMessage(b, m)
-	err = DecodeMessage(&q, b)
+	err = DecodeMessage(q, b)
 	return
 }
 
 //@ func verifMessageRoundTrip
-//@   requires m != nil
-//@   ensures roundtrip: err == nil && q == *m
+//@   requires m != nil && q != nil && m != q
+//@   modifies *q
+//@   ensures roundtrip: err == nil && *q == *m
 
 func verifMessageReencode(b []byte) (ok bool, out []byte) {
 	var m Message
@@ -96,30 +99,32 @@ func verifMessageReencode(b []byte) (ok bool, out []byte) {
 //@   ensures reencode: len(b) >= 44 ==> ok && len(out) == 44 && forall(i, 0, 44, out[i] == b[i])
 //@   ensures short: len(b) < 44 ==> !ok
 
-func verifRequestTLVRoundTrip(t *RequestTLV) (q RequestTLV, n int, err error) {
+func verifRequestTLVRoundTrip(t *RequestTLV, q *RequestTLV) (n int, err error) {
 	n = EncodedRequestTLVLength(t)
 	b := make([]byte, n)
 	EncodeRequestTLV(b, t)
-	err = DecodeRequestTLV(&q, b)
+	err = DecodeRequestTLV(q, b)
 	return
 }
 
 //@ func verifRequestTLVRoundTrip
-//@   requires t != nil
-//@   ensures roundtrip: err == nil && q == *t
+//@   requires t != nil && q != nil && t != q
+//@   modifies *q
+//@   ensures roundtrip: err == nil && *q == *t
 //@   ensures length: (t.FlagField&1 == 1 ==> n == 54) && (t.FlagField&1 == 0 ==> n == 36)
 
-func verifResponseTLVRoundTrip(t *ResponseTLV) (q ResponseTLV, n int, err error) {
+func verifResponseTLVRoundTrip(t *ResponseTLV, q *ResponseTLV) (n int, err error) {
 	n = EncodedResponseTLVLength(t)
 	b := make([]byte, n)
 	EncodeResponseTLV(b, t)
-	err = DecodeResponseTLV(&q, b)
+	err = DecodeResponseTLV(q, b)
 	return
 }
 
 // Without the server-state flag the 18 state bytes are not on the wire and decode as zero.
 //@ func verifResponseTLVRoundTrip
-//@   requires t != nil
+//@   requires t != nil && q != nil && t != q
+//@   modifies *q
 //@   ensures roundtrip: err == nil && q.Type == t.Type && q.Length == t.Length && q.OrganizationID == t.OrganizationID && q.OrganizationSubType == t.OrganizationSubType && q.FlagField == t.FlagField && q.Error == t.Error && q.RequestIngressTimestamp == t.RequestIngressTimestamp && q.RequestCorrectionField == t.RequestCorrectionField && q.UTCOffset == t.UTCOffset
 //@   ensures state: (t.FlagField&1 == 1 ==> q.ServerStateDS == t.ServerStateDS) && (t.FlagField&1 == 0 ==> q.ServerStateDS == ServerStateDS{})
 //@   ensures length: (t.FlagField&1 == 1 ==> n == 54) && (t.FlagField&1 == 0 ==> n == 36)
